@@ -20,7 +20,9 @@ PROP = {
                    "reserve clause for both families: after Reserve(n) no memory-manager call while the size stays <= n. The model is "
                    "executable and compared with the real containers on every run: size, capacity, every cell (moved-from cells "
                    "included) and every memory-manager call of every operation; growth constants are re-extracted from Array.h."
-                   " ArraySettings::GrowCapacity is additionally TRANSLATED from the header text on every run (tools/translate.py) and proved equal to the model's growth rule for capacities < 2^62 (C05_growCapacity_translated)."),
+                   " ArraySettings::GrowCapacity is additionally TRANSLATED from the header text on every run (tools/translate.py) and proved equal to the model's growth rule for capacities < 2^62 (C05_growCapacity_translated)."
+                   " Second wave (tools/trspecs/Wave2.py, Proof/TrEqWave2Arr.lean): Data::GetCapacity, the three tests of Data::Reallocate, the heap test of Data::Reset, "
+                   "the tests of Reserve / Shrink(capacity) and the shrink target are translated and proved equal to the tests of the model (C05_capacity_tests_translated)."),
     "level_note": ("Trusted: Lean kernel, the three standard axioms, extractor, correspondence harness (g++ -O0, ASan+UBSan, "
                    "-fno-access-control). Modelled not verified: object lifetime inside raw storage (construct/destroy/relocate are "
                    "cell moves; double destroy, leaks and reads of dead items are runtime evidence from ASan only), size_t overflow of "
@@ -46,6 +48,7 @@ PROP = {
         "Momo.Arr.C05_segarray_capacity_suffices",
         "Momo.Arr.C05_segarray_reserve_no_alloc",
         "Momo.Arr.C05_growCapacity_translated",
+        "Momo.Arr.C05_capacity_tests_translated",
     ],
     "harnesses": [
         dict(_ASAN_O0, name="c05_array_1", src="c05_array.cpp", flags=["-O0", "-DC05_PART=1"]),
